@@ -24,7 +24,7 @@ PROP = dict(
             "arbitrary invocation orders, not modelled line by line.",
     assumptions=["Go channel, select, sync.Mutex, sync.WaitGroup, sync.Map.Range and atomic.Bool semantics as modelled in Pause/PauseLts.v (one label per operation; Range = snapshot of the keys, presence re-checked at each visit)",
                  "subscriptions happen before the first Pause (start-up order of startPipeline)",
-                 "the three repairs fixes/C14-*.diff are applied: the theorems are about the repaired protocol; the unrepaired code is refuted (C14_orig_refuted) and the driver shows the same on the real code"],
+                 "the theorems are about the repaired protocol (commits 2e672eb, fb4cbc4, 31dcd5b = fixes/C14-*.diff); the code before them is refuted (C14_orig_refuted) and the driver showed the same on the real code"],
     level_text="Theorems over ALL label lists (= all schedules and all orders of Pause/Resume/cancel/work invocations) for any number of workers and "
                "controllers, by an inductive invariant (mutex holder <-> the one call past its first step; per phase which workers still owe an "
                "acknowledgement), deadlock freedom at every reachable state, and a strictly decreasing measure for system steps (valid for every "
